@@ -1327,6 +1327,11 @@ func TestVerifNoise(t *testing.T) {
 	if ntr > 0 {
 		out.emit(vnConfusionCase(master.fork(400000)))
 	}
+	// independent crypto oracle (verif_noise_oracle_test.go)
+	nor := int(vEnvInt("VERIF_N_HREF", int64(vCases(72, 1200))))
+	for i := 0; i < nor; i++ {
+		out.emit(vnOracleCase(master.fork(uint64(900000+i)), i))
+	}
 	// several sessions in one process (verif_noise_multi_test.go)
 	nmr := int(vEnvInt("VERIF_N_MULTI", int64(vCases(16, 300))))
 	nmc := int(vEnvInt("VERIF_N_MCONC", int64(vCases(4, 60))))
